@@ -119,6 +119,14 @@ func scenarios() []scenario {
 		c.cancel = true
 		out = append(out, c)
 	}
+	// withheld answers AND cancellation: the call must return when the context ends although calls are in flight
+	// (also when every key lives on one single instance)
+	for _, i := range []int{1, 2, 5} {
+		hc := base[i]
+		hc.name += "+hold+cancel"
+		hc.hold, hc.cancel = true, true
+		out = append(out, hc)
+	}
 	p := base[3]
 	p.name += "+pool"
 	p.pool = true
